@@ -357,6 +357,7 @@ fn run_unsupported(ctx: &mut Ctx) {
 fn run_patterns(ctx: &mut Ctx) {
     let total = ctx.n;
     let seed = ctx.seed;
+    let pool = ctx.pool;
     ctx.drive(
         total,
         |_, idx| Some((ALPHA_PT[(idx % 6) as usize], (idx / 6) % 2 == 1, idx)),
@@ -365,7 +366,8 @@ fn run_patterns(ctx: &mut Ctx) {
             stats.nontrivial(&json!([pt_name(pt), divide, k]));
             let mut rng = Rng::for_case(seed, "C06pat", k);
             let w = 1 + ((k / 12) % 70) as u32;
-            let h = 1 + rng.below(3) as u32;
+            // inside a thread pool the image has to be tall enough to be split into bands
+            let h = if pool > 0 { 30 + rng.below(70) as u32 } else { 1 + rng.below(3) as u32 };
             let content = match P::kind() {
                 CompKind::F32 => firv::spec::Content { kind: 0, seed: rng.next(), a: 0.0, b: 1.0 },
                 _ => firv::spec::Content { kind: 0, seed: rng.next(), a: 0.0, b: 0.0 },
